@@ -40,13 +40,14 @@ FnOf(q, key) == [x \in {q[i][key] : i \in DOMAIN q} |-> q[CHOOSE i \in DOMAIN q 
 Dyn(gg) == \E i \in DOMAIN gg.stmts : gg.stmts[i].dd # ""
 Bad(what, detail) == IF Cardinality(res.bad) >= 20 THEN res.bad ELSE res.bad \cup {[l |-> l, what |-> what, detail |-> detail]}
 
-\* the model finishes the phony statements it has ready (lowest first), as the loop does before anything else
+\* the model finishes the phony statements the loop takes from the queue before the next command: with Prio, while the
+\* top of the queue is phony and the runner has capacity; without, all that are ready (lowest first)
 RECURSIVE RunPhony(_, _)
 RunPhony(v, fuel) ==
   LET ph == {i \in v.ready : St(g, i).phony} IN
   IF ph = {} \/ fuel = 0 \/ ~Budget(v) \/ ~SlotFree(v) THEN v
+  ELSE IF Prio THEN (IF CanStartV(v) /\ St(g, Top(v)).phony THEN RunPhony(StartPhony(v, Top(v)), fuel - 1) ELSE v)
   ELSE RunPhony(StartPhony(v, CHOOSE i \in ph : \A j \in ph : i <= j), fuel - 1)
-CanStartV(v) == Budget(v) /\ v.ready # {} /\ (IF v.js >= 0 THEN SlotFree(v) ELSE (Cardinality(v.running) < v.j \/ \E i \in v.ready : St(g, i).phony))
 
 Keep == UNCHANGED <<raw, vers, disk, clock, blog, dlog, dfile, L, F, pc, iv, ninv, nenv, kf, last>>
 KeepW == UNCHANGED <<vers, clock, F, ninv, nenv, kf, last>>
@@ -81,12 +82,14 @@ TStep ==
             LET v == RunPhony(iv, Fuel)
                 i == E.s
                 ok == pc = "build" /\ Budget(v) /\ i \in v.ready /\ (IF v.js >= 0 THEN SlotFree(v) ELSE Cardinality(v.running) < v.j)
+                prioOK == ~Prio \/ ~ok \/ i = Top(v)
                 v2 == StartCmd(v, i, Missing("-"), E.t)
                 \* same commands running, and (jobserver) the same number of tokens left in the pool
                 runOK == {r.i : r \in v2.running} = ToS(E.run) /\ (v.js >= 0 => v2.free = E.fifo)
             IN /\ iv' = v2
-               /\ res' = [res EXCEPT !.steps = @ + 1, !.agree = @ + (IF ok /\ runOK THEN 1 ELSE 0),
-                                     !.bad = IF ~ok THEN Bad("the code started a statement the model does not have ready (or over -j / the failure budget)", ToString(<<i, v.ready, v.delayed, v.running>>))
+               /\ res' = [res EXCEPT !.steps = @ + 1, !.agree = @ + (IF ok /\ runOK /\ prioOK THEN 1 ELSE 0),
+                                     !.bad = IF ~prioOK THEN Bad("the code started a ready statement that is not the top of the model's priority queue", ToString(<<i, Top(v), v.ready, v.prio>>))
+                                             ELSE IF ~ok THEN Bad("the code started a statement the model does not have ready (or over -j / the failure budget)", ToString(<<i, v.ready, v.delayed, v.running>>))
                                              ELSE IF ~runOK THEN Bad("running sets (or tokens left in the jobserver pool) differ", ToString(<<v2.running, E.run, v2.free, E.fifo>>)) ELSE @]
                /\ UNCHANGED <<raw, disk, blog, dlog, dfile, L, pc, inv, on>> /\ KeepW
        [] E.e = "Done" /\ on ->
